@@ -494,6 +494,7 @@ def tables(run, r, name, quick, tag=""):
 # ----------------------------------------------------------------------------------------
 HLTS = None
 HOBS = None
+HEVAL = None     # states in which the specification enables Eval (all with at least one generator)
 
 
 def hkey(k):
@@ -517,13 +518,47 @@ def act_label(a):
     return "%s(%s,%s)" % (a["a"], a["name"], json.dumps(a["M"], separators=(",", ":")))
 
 
-def replay_path(path, mode):
-    """execute one history on a fresh object; compare the final state. Returns None or (clause, detail)."""
+def observe(rep, der, key, mode, with_dict=True):
+    """the Eval action on the live objects: the word battery of the state `key` (every word up to
+    WordLen over every stored letter) on the original and on the derived representation, the
+    dictionaries, and the differential -- compared with the specification's values for that state"""
+    obs = HOBS[key]
+    k = obs["key"]
+    if with_dict:
+        need(rc.dict_check(rep, gens_of(k["gens"]), mode))
+    if k["gens"]:   # a representation without generators has no dimension yet: no word is in the domain
+        need(rc.words_check(rep, mode, obs["vals_t"], "image", all_forms=False))
+    if k["dkind"] != "none":
+        dm = derived_mode(mode, der)
+        if with_dict:
+            need(rc.dict_check(der, gens_of(k["dgens"]), dm, "derived.generators"))
+        need(rc.words_check(der, dm, obs["dvals_t"], "derived.image", all_forms=False))
+    if mode.naming == "single" and mode.parse is None and k["gens"]:
+        lowers = list(rep.asym_gens())
+        dim = rep.dim
+        cob = np.asarray(rep.coboundary_matrix())
+        for w, blocks in obs["fox"]:
+            s = "".join(w)
+            D = np.asarray(rep.differential(s))
+            for j, g in enumerate(lowers):
+                if not rc.close(D[:, j * dim:(j + 1) * dim], rc.to_array(blocks[g])):
+                    raise Bad("differential.block", "block %r of differential(%r) = %r, specified %r"
+                              % (g, s, rc.show(D[:, j * dim:(j + 1) * dim]), blocks[g]))
+            lhs = D @ cob
+            rhs = np.identity(dim) - np.asarray(rep[s])
+            if not (rc.close(lhs, rhs) or rc.close(lhs, -rhs)):
+                raise Bad("differential*coboundary", "differential(%r) @ coboundary_matrix() = %r, +-(I - rep[%r]) = %r"
+                          % (s, rc.show(lhs), s, rc.show(rhs)))
+
+
+def replay_path(path, mode, eval_everywhere=True):
+    """execute one history on a fresh object.  With eval_everywhere the Eval action of RepHist is
+    interleaved after every step on the SAME live objects (so every word is evaluated before and after
+    every later assignment); otherwise only the final state is observed (no evaluation precedes an
+    assignment).  Returns None or (clause, detail)."""
     rep = rc.new_rep(mode)
     der = None
-    key = None
     for i, (act, to) in enumerate(path):
-        key = to
         try:
             if act["a"] == "set":
                 rep[mode.name(act["name"])] = mode.cast(np.array(act["M"], dtype=float), i)
@@ -533,36 +568,18 @@ def replay_path(path, mode):
                 der[mode.name(act["name"])] = mode.cast(np.array(act["M"], dtype=float), i)
         except Exception as e:
             return ("raised:" + act["a"], "step %d %s raised %s: %s" % (i + 1, act_label(act), type(e).__name__, e))
-    obs = HOBS[key]
-    k = obs["key"]
-    try:
-        need(rc.dict_check(rep, gens_of(k["gens"]), mode))
-        if k["gens"]:   # a representation without generators has no dimension yet: no word is in the domain
-            need(rc.words_check(rep, mode, obs["vals_t"], "image", all_forms=False))
-        if k["dkind"] != "none":
-            dm = derived_mode(mode, der)
-            need(rc.dict_check(der, gens_of(k["dgens"]), dm, "derived.generators"))
-            need(rc.words_check(der, dm, obs["dvals_t"], "derived.image", all_forms=False))
-        if mode.naming == "single" and mode.parse is None and k["gens"]:
-            lowers = list(rep.asym_gens())
-            dim = rep.dim
-            cob = np.asarray(rep.coboundary_matrix())
-            for w, blocks in obs["fox"]:
-                s = "".join(w)
-                D = np.asarray(rep.differential(s))
-                for j, g in enumerate(lowers):
-                    if not rc.close(D[:, j * dim:(j + 1) * dim], rc.to_array(blocks[g])):
-                        raise Bad("differential.block", "block %r of differential(%r) = %r, specified %r"
-                                  % (g, s, rc.show(D[:, j * dim:(j + 1) * dim]), blocks[g]))
-                lhs = D @ cob
-                rhs = np.identity(dim) - np.asarray(rep[s])
-                if not (rc.close(lhs, rhs) or rc.close(lhs, -rhs)):
-                    raise Bad("differential*coboundary", "differential(%r) @ coboundary_matrix() = %r, +-(I - rep[%r]) = %r"
-                              % (s, rc.show(lhs), s, rc.show(rhs)))
-    except Bad as b:
-        return (b.clause, b.detail)
-    except Exception as e:
-        return ("raised:observation", "%s: %s" % (type(e).__name__, e))
+        last = i == len(path) - 1
+        if not (last or eval_everywhere):
+            continue
+        if to not in HEVAL:
+            raise core.MachineryFailure("RepHist: no Eval transition emitted for a visited state")
+        try:
+            observe(rep, der, to, mode, with_dict=True)
+        except Bad as b:
+            where = "" if last else "after step %d of %d (Eval interleaved): " % (i + 1, len(path))
+            return (b.clause, where + b.detail)
+        except Exception as e:
+            return ("raised:observation", "after step %d: %s: %s" % (i + 1, type(e).__name__, e))
     return None
 
 
@@ -585,13 +602,19 @@ def hist_chunk(args):
         tails = [[]] + (list(paths_from(prefix[-1][1], depth - 2)) if len(prefix) == 2 else [])
         for tail in tails:
             path = prefix + tail
-            for mode in modes:
-                n += 1
-                bad = replay_path(path, mode)
-                if bad and len(viol) < MAXV:
-                    viol.append(([act_label(a) for a, _ in path], str(mode), bad))
+            for j, mode in enumerate(modes):
+                # Eval interleaved after every step; for the first mode and histories of >= 2 steps also
+                # the history without any evaluation before the last step
+                for everywhere in ((True, False) if j == 0 and len(path) > 1 else (True,)):
+                    n += 1
+                    bad = replay_path(path, mode, everywhere)
+                    if bad and len(viol) < MAXV:
+                        lab = [act_label(a) for a, _ in path]
+                        if everywhere:
+                            lab = [x for a in lab for x in (a, "eval")]
+                        viol.append((lab, str(mode), bad))
             if sample is None and len(path) >= 3 and any(a["a"] == "derive" for a, _ in path):
-                sample = [act_label(a) for a, _ in path]
+                sample = [x for a, _ in path for x in (act_label(a), "eval")]
     return n, viol, sample
 
 
@@ -601,8 +624,9 @@ def hist_cfg(depth):
 
 
 def histories(run, r, quick, depth):
-    global HLTS, HOBS
+    global HLTS, HOBS, HEVAL
     HOBS = {}
+    HEVAL = set()
     for row in parse_rows(r.stdout, '"OBS '):
         row["vals_t"] = table_of(row["vals"])
         row["dvals_t"] = table_of(row["dvals"])
@@ -611,6 +635,11 @@ def histories(run, r, quick, depth):
     seen = set()
     for e in r.emits:
         fk, tk = hkey(e["from"]), hkey(e["to"])
+        if e["act"]["a"] == "eval":
+            if fk != tk:
+                raise core.MachineryFailure("RepHist: Eval changed the state")
+            HEVAL.add(fk)
+            continue
         sig = (fk, json.dumps(e["act"], sort_keys=True))
         if sig in seen:
             continue
